@@ -56,6 +56,10 @@ SPECIES = {
     'U': ([('U1', 'UNM', 1), ('U2', 'UNM', 1)], _chain(2), None, None),
     'W': ([('W', 'W', 1)], [], None, None),
 }
+# workflow histories on ONE Manager (system S1 S2 W S1 U): attach through add_end_molecule, attach / detach through
+# the documented molecule_correspondence[name].end attribute, compute maps, extrapolate
+HIST_SEQ = ['S1', 'S2', 'W', 'S1', 'U']
+HIST_EVENTS = ('extr', 'calc', 'add:S1', 'add:S2', 'set:S1', 'set:S2', 'det:S1', 'det:S2')
 END_RESID_OFFSET = 76             # residue numbers carried by the end-resolution files
 
 BOX = {'rect': np.array([7.25, 6.5, 8.125]),
@@ -183,15 +187,17 @@ class C05(Check):
             'are enumerated: an end molecule can only be attached to a species present in the system, the scale '
             'is irrelevant when no map is computed, the subset is irrelevant when nothing is attached. '
             'non-trivial = a file with at least one mapped molecule was written and compared, or the '
-            'failure mode raised')
+            'failure mode raised. Workflow histories: every sequence of a fixed length over 8 events (attach via '
+            'add_end_molecule / via the .end attribute, detach, compute maps, extrapolate) ending in extrapolate, on one '
+            'Manager, with a 2-bit-per-species model deciding what each extrapolate must write')
     technique = ('exhaustive enumeration of system compositions x attachment subsets x box x scale x '
                  'pre-flight failure modes on the real Manager; output re-read by an independent '
                  'fixed-width reader and compared with the generator ground truth and a direct '
                  'exchange-map call on an independently built input molecule')
     level_text = ('every sequence of 1..3 (quick) / 1..5 (thorough) molecules over 6 species (3-atom, 2-residue, '
                   '2-atom and 1-atom references, an unmapped loaded species, solvent), every attachment subset, '
-                  '2 boxes, 2 scales and 3 failure modes are executed on the real code; a coverage statement '
-                  'over that finite space')
+                  '2 boxes, 2 scales and 3 failure modes are executed on the real code; plus every workflow history of '
+                  'length 5 (quick) / 6 (thorough) over 8 manager events; a coverage statement over that finite space')
     level_note = ('trusted: the text builders and the 30-line reader in this module, numpy; alignment is not run '
                   '(the maps are built from the placed coordinates); velocities and non-default coordinate '
                   'precision are not covered. KNOWN LIMITATION (outside the premise, informational only): when the two '
@@ -213,6 +219,12 @@ class C05(Check):
             fix = 0 if n == 1 else (1 if n == 2 else (2 if n <= 4 else 3))
             for pre in itertools.product(LETTERS, repeat=fix):
                 u.append({'n': n, 'pre': list(pre)})
+        hdepth = 6 if tier == 'thorough' else 5
+        self.bounds['workflow_histories'] = {'system': HIST_SEQ, 'events': list(HIST_EVENTS), 'length': hdepth,
+                                             'shape': 'every event sequence of that length ending in extrapolate; '
+                                                      'every extrapolate inside a sequence is checked too'}
+        for pre in itertools.product(HIST_EVENTS, repeat=2):
+            u.append({'hist': hdepth, 'pre': list(pre)})
         if RESCOUNT:
             self.bounds['residue_count_differs'] = {'species': list(RESCOUNT), 'sequence_length_max': 2,
                                                     'alphabet': list(RESCOUNT) + ['S1', 'W']}
@@ -228,6 +240,10 @@ class C05(Check):
                         for box in BOXES:
                             yield {'seq': list(seq), 'box': box}
             return
+        if unit.get('hist'):
+            for mid in itertools.product(HIST_EVENTS, repeat=unit['hist'] - 3):
+                yield {'hist': list(unit['pre']) + list(mid) + ['extr']}
+            return
         n, pre = unit['n'], unit['pre']
         for rest in itertools.product(LETTERS, repeat=n - len(pre)):
             for box in BOXES:
@@ -235,6 +251,8 @@ class C05(Check):
 
     # ------------------------------------------------------------------
     def check_case(self, case, R, seed):
+        if 'hist' in case:
+            return self._history(case, R, seed)
         world = World(case['seq'], case['box'], seed)
         if 'mode' in case:
             subs = [(case['mode'], case['sub'], case['scale'])]
@@ -322,6 +340,94 @@ class C05(Check):
             R.add('info_residue_count_differs_mismatch')
         elif sig:
             R.violation(sig, desc, det)
+
+    def _history(self, case, R, seed):
+        """One workflow history on one real Manager, stepped along a 2-bit-per-species model
+        (end attached?, map exists?); every extrapolate is compared with the model."""
+        from gaddlemaps import Manager
+        from gaddlemaps.components import System
+        events = case['hist']
+        world = World(HIST_SEQ, 'rect', seed)
+        state = {'phase': 'init', 'i': 0}
+
+        def script(kind, a, k):
+            assert kind == 'rand' and a == (3,), (kind, a)
+            t = DRAWS[state['phase']]
+            state['i'] += 1
+            return t[state['i'] % len(t)].copy()
+
+        first = {}
+        for m in world.mols:
+            first.setdefault(m['sp'], m['pos'])
+        attached, mapped = set(), set()
+        n_extr = 0
+        with Scratch() as d, owned_random(script):
+            system = System(MemFile(world.gro, 'system.gro'),
+                            *[MemFile(world.itp(s), s + '.itp') for s in world.present if s != 'W'])
+            man = Manager(system)
+            for i, ev in enumerate(events):
+                op, _, sp = ev.partition(':')
+                desc = {'hist': events[:i + 1]}
+                state['phase'] = 'init'
+                try:
+                    if op == 'add':
+                        man.add_end_molecule(end_molecule(sp, first[sp], seed))
+                        attached.add(sp)
+                    elif op == 'set':
+                        man.molecule_correspondence[sp].end = end_molecule(sp, first[sp], seed)
+                        attached.add(sp)
+                    elif op == 'det':
+                        man.molecule_correspondence[sp].end = None
+                        attached.discard(sp)
+                    elif op == 'calc':
+                        man.calculate_exchange_maps(scale_factor=0.5)
+                        mapped |= attached
+                except Exception as e:
+                    R.case(desc, nontrivial=False, cls='history', outcome=f'{op}:raised')
+                    R.violation(f'history/{op}/exception', desc, repr(e)[:300])
+                    return
+                if op != 'extr':
+                    continue
+                n_extr += 1
+                out = os.path.join(d, f'h{i}.gro')
+                state['phase'] = 'extrap'
+                err = None
+                try:
+                    man.extrapolate_system(out)
+                except Exception as e:
+                    err = e
+                exists = os.path.exists(out)
+                must_fail = not attached or bool(attached - mapped)
+                last = i == len(events) - 1
+                if must_fail:
+                    if last:
+                        R.case(desc, nontrivial=err is not None, cls='history/must-fail',
+                               outcome=f'hist:{"raised" if err is not None else "no-error"}:'
+                                       f'{"file" if exists else "no-file"}')
+                    if err is None:
+                        R.violation('history/extrapolate-before-maps-exist/no-error', desc,
+                                    f'attached {sorted(attached)}, maps {sorted(mapped)}')
+                        return
+                    if exists:
+                        R.violation('history/extrapolate-before-maps-exist/file-written', desc,
+                                    f'{type(err).__name__} raised but the output path exists')
+                        return
+                    continue
+                if err is not None or not exists:
+                    if last:
+                        R.case(desc, nontrivial=False, cls='history/must-write', outcome='hist:raised-or-no-file')
+                    R.violation('history/extrapolate/failed-although-maps-exist', desc,
+                                f'attached {sorted(attached)}, maps {sorted(mapped)}: {err!r}'[:300])
+                    return
+                state['phase'] = 'oracle'
+                sig, det, nm = self._compare(world, {'sub': sorted(attached)}, out, man)
+                if last:
+                    R.case(desc, nontrivial=True, cls='history/must-write', outcome=f'hist:{"ok" if sig is None else "bad"}')
+                    R.add('mapped_molecules_compared', nm)
+                if sig:
+                    R.violation('history/' + sig, desc, f'attached {sorted(attached)}: {det}')
+                    return
+        R.add('history_extrapolations_checked', n_extr)
 
     def _compare(self, world, desc, out, man):
         sub = desc['sub']
